@@ -86,7 +86,7 @@ theorem Rep.eq_append {cap : Nat} {buf : List (Option β)} {a : List β} (h : Re
     · rw [List.getElem?_append_left (by simpa using hlt)]; simp [hlt]
     · rw [List.getElem?_append_right (by simpa using Nat.le_of_not_lt hlt)]
       have hlt' : j - a.length < cap - a.length := by omega
-      simp [List.getElem?_eq_none (Nat.le_of_not_lt hlt), List.getElem?_replicate, hlt']
+      simp [List.getElem?_eq_none (Nat.le_of_not_lt hlt), hlt']
   · have : cap ≤ j := Nat.le_of_not_lt hj
     rw [List.getElem?_eq_none (by omega), List.getElem?_eq_none (by simp; omega)]
 
